@@ -251,6 +251,28 @@ Proof.
     apply IH; rewrite skipn_length; lia.
 Qed.
 
+Lemma loop_past_end_ne : forall fuel rest pos offset ln ls,
+  pos + zlen rest < offset -> (length rest < fuel)%nat -> (0 < length rest)%nat ->
+  glbo_loop fuel {| ss_rest := rest; ss_offset := pos |} offset ln ls =
+  let '(l, cur, k) := locate (ln + 1) rest 0 rest (length rest - 1) in (take_line cur, l, offset).
+Proof. intros. rewrite loop_past_end by assumption. destruct rest; [cbn in *; lia|reflexivity]. Qed.
+
+Lemma take_line_length : forall s, (length (take_line s) <= length s)%nat.
+Proof. induction s as [|b r IH]; cbn; [lia|]. destruct (is_nl b); cbn; lia. Qed.
+
+Lemma locate_cur_length_w : forall c ln cur k o,
+  (length (snd (fst (locate ln cur k c o))) <= Nat.max (length cur) (length c))%nat.
+Proof.
+  induction c as [|b r IH]; intros ln cur k o; destruct o as [|o']; cbn [locate fst snd length]; try lia.
+  destruct (b =? 10)%N.
+  - specialize (IH (ln + 1) r 0%nat o'). lia.
+  - destruct (b =? 13)%N.
+    + rewrite match_lf. destruct (starts_lf r).
+      * specialize (IH ln cur (S k) o'). lia.
+      * specialize (IH (ln + 1) r 0%nat o'). lia.
+    + specialize (IH ln cur (S k) o'). lia.
+Qed.
+
 Section WindowReports.
 Variable swidth : list N -> Z.
 
@@ -436,5 +458,114 @@ Proof.
   { intros m' Hm'. rewrite glbo_window; try assumption; try lia.
     rewrite EO. destruct (getLineByOffset swidth c (Z.of_nat o + 1)) as [[ls L] col]. f_equal. f_equal. lia. }
   destruct W as [W|W]; [rewrite W|]; apply G; lia.
+Qed.
+
+(* ---- unexpected EOF: the offending position is the end of the input -------------------------------------------- *)
+(* getLineByOffset on the tail from byte s, asked for the position after the end *)
+Lemma glbo_window_eof_line : forall c s, (s < length c)%nat -> crlf_only c = true ->
+  snd (fst (getLineByOffset swidth (skipn s c) (zlen (skipn s c) + 1))) =
+  spec_line c (length c - 1) - count_lf (firstn s c).
+Proof.
+  intros c s Hs C. unfold getLineByOffset.
+  set (x := skipn s c). assert (Lx : length x = (length c - s)%nat) by (unfold x; apply skipn_length).
+  rewrite loop_past_end_ne by (unfold zlen; lia). change (0 + 1) with 1.
+  pose proof (locate_window (length c) c s (length c - 1) 1 (le_n _) ltac:(lia) ltac:(lia) C) as W. fold x in W.
+  replace (length c - 1 - s)%nat with (length x - 1)%nat in W by lia.
+  unfold spec_line. destruct (locate 1 c 0 c (length c - 1)) as [[L cur] k].
+  destruct (locate 1 x 0 x (length x - 1)) as [[L' cur'] k']. destruct W as [W _].
+  destruct (glbo_post swidth (take_line cur') (zlen x + 1)). cbn [fst snd]. lia.
+Qed.
+
+Lemma glbo_window_eof : forall c s, (s < length c)%nat -> (s = 0 \/ s + 53 <= length c)%nat ->
+  crlf_only c = true ->
+  getLineByOffset swidth (skipn s c) (zlen (skipn s c) + 1) =
+  let '(ls, L, col) := getLineByOffset swidth c (zlen c + 1) in (ls, L - count_lf (firstn s c), col).
+Proof.
+  intros c s Hs Hd C. unfold getLineByOffset.
+  set (x := skipn s c). assert (Lx : length x = (length c - s)%nat) by (unfold x; apply skipn_length).
+  rewrite !loop_past_end_ne by (unfold zlen; lia). change (0 + 1) with 1.
+  set (o := (length c - 1)%nat).
+  pose proof (locate_window (length c) c s o 1 (le_n _) ltac:(unfold o; lia) ltac:(unfold o; lia) C) as W. fold x in W.
+  pose proof (locate_k_content (length c) c o 1 (le_n _) ltac:(unfold o; lia)) as Kc.
+  pose proof (locate_k_le c 1 c 0 o) as Kl.
+  replace (o - s)%nat with (length x - 1)%nat in W by (unfold o; lia).
+  destruct (locate 1 c 0 c o) as [[L cur] k] eqn:E1. cbn [snd] in Kl.
+  destruct (locate 1 x 0 x (length x - 1)) as [[L' cur'] k'] eqn:E2. destruct W as [WL W].
+  rewrite !glbo_post_nat.
+  set (lc := take_line cur) in *. set (lc' := take_line cur') in *.
+  pose proof (take_line_length cur') as T1. pose proof (take_line_length cur) as T2. fold lc' in T1. fold lc in T2.
+  assert (Lcur' : (length lc' <= length x)%nat).
+  { pose proof (locate_cur_length_w x 1 x 0 (length x - 1)) as Q. rewrite E2 in Q. cbn [fst snd] in Q. lia. }
+  assert (K2 : Z.to_nat (Z.min (Z.max (zlen x + 1 - 1) 0) (zlen lc')) = length lc') by (unfold zlen in *; lia).
+  assert (Lcur : (length lc <= length c)%nat).
+  { pose proof (locate_cur_length_w c 1 c 0 o) as Q. rewrite E1 in Q. cbn [fst snd] in Q. lia. }
+  assert (K1 : Z.to_nat (Z.min (Z.max (zlen c + 1 - 1) 0) (zlen lc)) = length lc) by (unfold zlen in *; lia).
+  rewrite K1, K2.
+  assert (P : post_n swidth lc' (length lc') = post_n swidth lc (length lc)).
+  { destruct W as [(W1 & W2 & W3)|(W1 & W2 & W3 & W4)].
+    - unfold lc', lc. now rewrite W2.
+    - fold lc lc' in W4. rewrite W4. set (d := (s - (o - k))%nat) in *.
+      rewrite skipn_length. apply post_n_drop; unfold o in *; lia. }
+  rewrite P. destruct (post_n swidth lc (length lc)) as [ex col]. f_equal. f_equal. lia.
+Qed.
+
+Theorem seek_window_eof_correct : forall c, crlf_only c = true ->
+  report_of swidth (seek_report c None) = getLineByOffset swidth c (zlen c + 1).
+Proof.
+  intros c C. destruct c as [|b0 r0] eqn:Ec; [vm_compute; reflexivity|]. rewrite <- Ec in *.
+  assert (Hl : 1 <= zlen c) by (rewrite Ec; unfold zlen; cbn [length]; lia).
+  unfold seek_report.
+  destruct (seek_loop_spec (S (length c)) c (zlen c) 0 ltac:(lia) ltac:(lia)) as (s & S1 & S2 & S3 & S4).
+  rewrite S2. unfold report_of. unfold zlen in *.
+  assert (F : ztake bufSize (skipn s c) = skipn s c).
+  { unfold ztake. apply firstn_all2. rewrite skipn_length. unfold bufSize. lia. }
+  rewrite F. fold (zlen (skipn s c)).
+  rewrite glbo_window_eof; try assumption; try lia.
+  fold (zlen c). destruct (getLineByOffset swidth c (zlen c + 1)) as [[ls L] col]. f_equal. f_equal. lia.
+Qed.
+
+(* non-seekable: the values delivered before the truncated document consumed p_i < len c bytes *)
+Definition chunking_eof_ok (c : list N) (steps : list (Z * Z)) : Prop :=
+  steps_okb 0 0 (zlen c) steps && (fst (last steps (0, 0)) <=? zlen c) && (1 <=? zlen c) = true.
+
+Theorem pipe_window_eof_kept : forall c steps, chunking_eof_ok c steps -> crlf_only c = true ->
+  let start := p_start (pipe_run c steps) in
+  let '(ex, line, col) := report_of swidth (pipe_report c steps (zlen c) None) in
+  0 <= start < zlen c /\ line = spec_line c (length c - 1) /\
+  (ex, col) = (let '(ex', _, col') := getLineByOffset swidth (zdrop start c) (zlen (zdrop start c) + 1)
+               in (ex', col')).
+Proof.
+  intros c steps Hc C start. unfold chunking_eof_ok in Hc.
+  repeat (apply andb_true_iff in Hc; destruct Hc as [Hc ?]). apply Z.leb_le in H, H0.
+  destruct (pipe_fold_inv c (zlen c) steps {| p_rest := c; p_start := 0; p_line := 0 |} 0 0) as [(I1 & I2 & I3) Hs];
+    try assumption; try (cbn; lia); [repeat split; cbn; lia|].
+  fold (pipe_run c steps) in I1, I2, I3, Hs. fold start in I1, I2, I3, Hs.
+  unfold pipe_report. fold start. unfold report_of. rewrite I2, I3. unfold zdrop.
+  set (s := Z.to_nat start) in *. unfold zlen in *.
+  assert (F : ztake (Z.of_nat (length c) - start) (skipn s c) = skipn s c).
+  { unfold ztake. apply firstn_all2. rewrite skipn_length. lia. }
+  rewrite F. fold (zlen (skipn s c)).
+  pose proof (glbo_window_eof_line c s ltac:(lia) C) as WL.
+  destruct (getLineByOffset swidth (skipn s c) (zlen (skipn s c) + 1)) as [[ex l] col].
+  cbn [fst snd] in WL. split; [lia|]. split; [lia|reflexivity].
+Qed.
+
+Theorem pipe_window_eof_exact : forall c steps, chunking_eof_ok c steps -> crlf_only c = true ->
+  let start := p_start (pipe_run c steps) in
+  (start = 0 \/ start + 53 <= zlen c) ->
+  report_of swidth (pipe_report c steps (zlen c) None) = getLineByOffset swidth c (zlen c + 1).
+Proof.
+  intros c steps Hc C start Hd. unfold chunking_eof_ok in Hc.
+  repeat (apply andb_true_iff in Hc; destruct Hc as [Hc ?]). apply Z.leb_le in H, H0.
+  destruct (pipe_fold_inv c (zlen c) steps {| p_rest := c; p_start := 0; p_line := 0 |} 0 0) as [(I1 & I2 & I3) Hs];
+    try assumption; try (cbn; lia); [repeat split; cbn; lia|].
+  fold (pipe_run c steps) in I1, I2, I3, Hs. fold start in I1, I2, I3, Hs.
+  unfold pipe_report. fold start. unfold report_of. rewrite I2, I3.
+  set (s := Z.to_nat start) in *. unfold zlen in *.
+  assert (F : ztake (Z.of_nat (length c) - start) (skipn s c) = skipn s c).
+  { unfold ztake. apply firstn_all2. rewrite skipn_length. lia. }
+  rewrite F. fold (zlen (skipn s c)).
+  rewrite glbo_window_eof; try assumption; try lia.
+  fold (zlen c). destruct (getLineByOffset swidth c (zlen c + 1)) as [[ls L] col]. f_equal. f_equal. lia.
 Qed.
 End WindowReports.
